@@ -21,7 +21,7 @@ macro_rules! properties {
     };
 }
 
-properties! { c09 => "C09", c10 => "C10", c11 => "C11", c13 => "C13", c14 => "C14", c15 => "C15", c16 => "C16", c17 => "C17", c18 => "C18" }
+properties! { c09 => "C09", c10 => "C10", c11 => "C11", c13 => "C13", c14 => "C14", c15 => "C15", c16 => "C16", c17 => "C17", c18 => "C18", e2e => "E2E" }
 
 fn main() {
     util::harness_main(run_property, observe_line);
